@@ -250,7 +250,7 @@ class Complementary:
         q_am : numpy.ndarray
             Estimated attitude.
         """
-        acc = np.copy(acc)
+        acc = np.array(acc, dtype=float)     # a float copy: integer input must not make the angles array integer
         if acc.ndim < 1:
             raise ValueError(f"Input 'acc' must be a one- or two-dimensional array. Got shape {acc.shape}.")
         if acc.ndim < 2:
